@@ -39,11 +39,17 @@ THEOREMS = ["PorepyVerif.C17." + t for t in (
     "kron_entry",
     "kron_components",
     "kron_upwind_entry",
+    "coupling_selects_upstream",
+    "traceVal_fracture_face",
+    "coupling_row_matvec",
+    "coupling_interface_conserves",
+    "md_transport_conserves",
+    "md_transport_conserves_iter",
 )]
 LEAN_MODULES = ["PorepyVerif.C17.Props"]
 AUDIT = "PorepyVerif/C17/Audit.lean"
 DRIVER = "PorepyVerif/C17/Driver.lean"
-N = {"quick": 350, "thorough": 7000}
+N = {"quick": 300, "thorough": 5000}
 RULE = ("one grid per case, built by the real code: CartGrid 1/2/3-d, StructuredTriangleGrid, StructuredTetrahedralGrid, the 2-d subdomain of "
         "pp.meshing.cart_grid with one fracture (split faces = boundary faces inside the domain), or a raw signed incidence handed to pp.Grid "
         "(random cell graph, both normal orientations on boundary faces; 15% ill-formed: a face with three cells). Scenarios: 'matrices' = random "
@@ -55,7 +61,10 @@ RULE = ("one grid per case, built by the real code: CartGrid 1/2/3-d, Structured
         "1-5 explicit steps with dyadic cell values / boundary values. 45% of the cases are HISTORIES of 2-4 discretize calls on ONE data dictionary and ONE "
         "Upwind object: between calls the BoundaryCondition object is modified in place (or replaced by an equal / different object, or the code's default "
         "branch is entered / left), flux values are rescaled with the same signs or sign-flipped (written in place or as a new array), num_components "
-        "changes; every call is checked. non-trivial = at least 2 cells and a nonzero flux; distinct = distinct cases")
+        "changes; every call is checked. 12% of the cases are MIXED-DIMENSIONAL: a small md-grid from pp.meshing.cart_grid (2-d with one or two "
+        "fractures incl. crossing ones with a 0-d intersection, 3-d with one or two fracture planes), random flux on every subdomain, random mortar flux "
+        "(20% zeros, mixed / one-signed) on every interface, outer boundary all-Neumann zero data (60%) or random Dirichlet/Neumann, 1-3 explicit md steps; "
+        "15% also call UpwindCoupling.discretize with the grids swapped (ValueError). non-trivial = at least 2 cells and a nonzero flux; distinct = distinct cases")
 TRUSTED = [
     "modelled, not verified: scipy.sparse glue (sps.find enumeration order, coo->csr conversion, sps.kron, np.delete, matrix products in "
     "assemble_matrix_rhs), numpy fancy assignment in cell_faces_as_dense (last write wins), np.sign on binary64 (NaN / -0.0 fluxes are not generated)",
@@ -64,6 +73,10 @@ TRUSTED = [
     "other tagged boundary faces)",
     "the explicit transport step is not porepy code: it is composed in the harness exactly as porepy's models compose the advective flux "
     "(flux*(upwind@c) + bound_transport_dir@(flux*bc) + bound_transport_neu@bc, then sd.divergence) from the REAL matrices in exact rationals",
+    "UpwindCoupling: the mortar projections (mortar_to_primary_int, mortar_to_secondary_int, *_avg) are inputs of the model, read from the real MortarGrid "
+    "as the matching mortar cell -> primary face / secondary cell (the harness asserts they are one-to-one 0/1 maps, as on every matching grid; non-matching "
+    "mortar grids are not covered; the projections themselves belong to C26); np.sign / np.abs / sps.diags glue; the md explicit step is composed in the "
+    "harness from the real Upwind matrices and the real coupling blocks cc[0,2], cc[1,2], cc[2,0], cc[2,1] (eta eliminated through cc[2,2] = -I)",
     "a one-face 'grid' (np.squeeze in discretize returns a 0-d array -> IndexError) is not a grid of any dimension >= 1 and is not generated; "
     "0-d grids take the trivial shortcut branch of discretize and are not modelled",
 ]
@@ -77,7 +90,13 @@ EXPLANATION = ("FULL: model = Upwind.discretize branch for branch over the store
                "number of steps; Kronecker expansion of any sparse matrix has block-diagonal-per-component entries and acts component-wise. Correspondence "
                "compares the three matrices, their shapes, assemble_matrix_rhs (matrix, rhs, ValueError for >1 component), ValueError cases and 1-5 explicit "
                "steps exactly (rationals), after every discretize call of a history (the model is stateless: it sees only the current inputs); the oracle "
-               "additionally demands that the stored matrices equal those of a fresh discretisation of the current inputs (keys history-stale-*).")
+               "additionally demands that the stored matrices equal those of a fresh discretisation of the current inputs (keys history-stale-*). "
+               "UpwindCoupling (interface variant) is modelled per mortar cell as coded (flag = sign(lam) > 0, so zero flux takes the secondary side): "
+               "coupling_selects_upstream / coupling_row_matvec (row 2 of the assembled blocks = lam * primary trace value if lam > 0 else lam * secondary cell "
+               "value), coupling_interface_conserves (what cc[0,2] takes out of the primary cells cc[1,2] puts into the secondary cells, any mortar flux), "
+               "md_transport_conserves(_iter): on any graph of subdomains coupled by interfaces (flattened to global indices) an explicit step with no-flow outer "
+               "boundary keeps the total over all subdomains, for ANY subdomain and mortar fluxes. Correspondence on md-grids: all Upwind matrices, all "
+               "UpwindCoupling matrices and assembled blocks, ValueError for swapped dimensions, md steps exactly.")
 ASSUMPTIONS = [
     "selection / boundary-row / maximum-principle theorems assume the decidable well-formedness predicate WF (signs +-1, at most one cell on each side of a "
     "face); every grid built by porepy constructors / fracture meshing in the sample satisfies it (the oracle recomputes it from cell_faces.toarray())",
@@ -278,6 +297,8 @@ def _outflow(fc_cells, F, nc):
 
 
 def gen_case(rng, tier):
+    if rng.random() < 0.12:
+        return _gen_md(rng, tier)
     spec = _gen_grid_spec(rng, tier)
     g = build_grid(spec)
     nf, nc = g.num_faces, g.num_cells
@@ -584,6 +605,8 @@ def _run_history(case):
 
 
 def impl_run(case):
+    if case.get("family") == "md":
+        return _md_impl(case)
     g, res = _run_history(case)
     outs = []
     for st, r in res:
@@ -605,6 +628,8 @@ def impl_run(case):
 # ----------------------------------------------------------------------------- the model
 def model_ops(case):
     """one stateless model evaluation per discretize call of the history (flags from a FRESH BoundaryCondition built from the stage's recipe)"""
+    if case.get("family") == "md":
+        return _md_ops(case)
     g = build_grid(case["grid"])
     inc = incidences(g)
     ops = []
@@ -637,6 +662,8 @@ def _agg(trips):
 
 
 def model_decode(outs, case):
+    if case.get("family") == "md":
+        return _md_decode(outs, case)
     res = []
     for o in outs:
         if "err" not in o:
@@ -657,6 +684,8 @@ def compare(impl, model, case):
 def oracle(case):
     """the property after EVERY discretize call of the history; additionally the stored matrices must be those of a fresh
     discretisation (new data dictionary, new Upwind object, new BoundaryCondition) of the inputs current at that call"""
+    if case.get("family") == "md":
+        return _md_oracle(case)
     g, res = _run_history(case)
     for n, (st, r) in enumerate(res):
         if n > 0:
@@ -798,11 +827,21 @@ def _oracle_stage(g, case, r):
 
 
 def nontrivial(case):
+    if case.get("family") == "md":
+        return any(Fraction(x) != 0 for l_ in case["lam"] for x in l_)
     g = build_grid(case["grid"])
     return g.num_cells >= 2 and any(Fraction(x) != 0 for x in case["flux"])
 
 
 def shrink_candidates(case):
+    if case.get("family") == "md":
+        if case["nsteps"] > 1:
+            yield dict(case, nsteps=1)
+        for i, l_ in enumerate(case["lam"]):
+            for j, x in enumerate(l_):
+                if Fraction(x) not in (0, 1, -1):
+                    yield dict(case, lam=case["lam"][:i] + [l_[:j] + ["1" if Fraction(x) > 0 else "-1"] + l_[j + 1:]] + case["lam"][i + 1:])
+        return
     st = case.get("stages", [])
     for i in range(len(st)):
         yield dict(case, stages=st[:i] + st[i + 1:]) if len(st) > 1 else {key: v for key, v in case.items() if key != "stages"}
@@ -818,6 +857,14 @@ def shrink_candidates(case):
 def stats(cases, impl_outs):
     from collections import Counter
 
+    md = [c for c in cases if c.get("family") == "md"]
+    pairs = [(c, o) for c, o in zip(cases, impl_outs) if c.get("family") != "md"]
+    cases, impl_outs = [c for c, _ in pairs], [o for _, o in pairs]
+    md_stats = {"cases": len(md), "closed": sum(1 for c in md if c["scenario"] == "md-closed"), "interfaces": sum(len(c["lam"]) for c in md),
+                "mortar_cells": sum(len(l_) for c in md for l_ in c["lam"]),
+                "mortar_flux_signs": dict(Counter("+" if Fraction(x) > 0 else "-" if Fraction(x) < 0 else "0" for c in md for l_ in c["lam"] for x in l_)),
+                "grids": dict(Counter(json.dumps(c["grid"]["dims"]) + "/" + str(len(c["grid"]["fracs"])) for c in md)), "swapped_dimension_calls": sum(1 for c in md if c.get("swap"))}
+
     kinds = Counter(c["grid"]["kind"] + (str(len(c["grid"]["dims"])) if "dims" in c["grid"] else "") for c in cases)
     scen = Counter(c["scenario"] for c in cases)
     bcm = Counter("default" if c["bc"] is None else c["bc"]["mode"] for c in cases)
@@ -831,4 +878,330 @@ def stats(cases, impl_outs):
             "oracle_hypothesis_classes_with_nonzero_flux": dict(_CLS),
             "histories": sum(1 for c in cases if c.get("stages")), "discretize_calls": sum(1 + len(c.get("stages", [])) for c in cases),
             "history_changes": dict(Counter(w for c in cases for st in c.get("stages", []) for w in st["what"])),
-            "history_bc_how": dict(Counter(st["how_bc"] for c in cases for st in c.get("stages", [])))}
+            "history_bc_how": dict(Counter(st["how_bc"] for c in cases for st in c.get("stages", []))),
+            "mixed_dimensional": md_stats}
+
+
+# ============================================================================= mixed-dimensional family
+# One case = a small fractured md-grid (pp.meshing.cart_grid), a flux on every subdomain, a mortar flux on every
+# interface, boundary conditions on the outer boundary, cell data.  Real code: Upwind.discretize per subdomain,
+# UpwindCoupling.discretize + assemble_matrix_rhs per interface, explicit md step composed from the REAL matrices.
+# Model: everything flattened to global face / cell indices (subdomain s owns the index ranges [foff_s, foff_s + nf_s),
+# [coff_s, coff_s + nc_s)); every mortar cell is matched with its primary face and secondary cell as given by the real
+# 0/1 mortar projections.
+_MDGS = {}
+
+MD_SPECS = [
+    {"dims": [2, 2], "fracs": [[[0, 2], [1, 1]]]},
+    {"dims": [3, 2], "fracs": [[[1, 2], [1, 1]]]},
+    {"dims": [3, 2], "fracs": [[[1, 3], [1, 1]]]},
+    {"dims": [2, 3], "fracs": [[[1, 1], [0, 2]]]},
+    {"dims": [3, 3], "fracs": [[[1, 2], [1, 1]], [[2, 2], [1, 3]]]},
+    {"dims": [4, 2], "fracs": [[[1, 3], [1, 1]], [[2, 2], [0, 2]]]},          # crossing: 0-d intersection
+    {"dims": [2, 2], "fracs": [[[0, 2], [1, 1]], [[1, 1], [0, 2]]]},          # crossing, both through
+    {"dims": [3, 3], "fracs": [[[0, 2], [1, 1]], [[1, 3], [2, 2]]]},
+    {"dims": [2, 2, 2], "fracs": [[[0, 2, 2, 0], [0, 0, 2, 2], [1, 1, 1, 1]]]},
+    {"dims": [2, 1, 2], "fracs": [[[1, 1, 1, 1], [0, 1, 1, 0], [0, 0, 2, 2]]]},
+    {"dims": [2, 2, 2], "fracs": [[[0, 1, 1, 0], [0, 0, 2, 2], [1, 1, 1, 1]], [[1, 1, 1, 1], [0, 2, 2, 0], [0, 0, 2, 2]]]},
+]
+
+
+def build_mdg(spec):
+    """-> (mdg, subdomains, interfaces, info) with global offsets and the mortar matching read from the real projections"""
+    import porepy as pp
+
+    key = json.dumps(spec, sort_keys=True)
+    if key in _MDGS:
+        return _MDGS[key]
+    with warnings.catch_warnings():
+        warnings.simplefilter("ignore")
+        mdg = pp.meshing.cart_grid([np.array(f, dtype=float) for f in spec["fracs"]], np.array(spec["dims"]))
+    sds = list(mdg.subdomains())
+    foff, coff = [0], [0]
+    for sd in sds:
+        foff.append(foff[-1] + sd.num_faces)
+        coff.append(coff[-1] + sd.num_cells)
+    intfs = []
+    for intf in mdg.interfaces():
+        h, l = mdg.interface_to_subdomain_pair(intf)
+        ih, il = sds.index(h), sds.index(l)
+        Pp = sps.coo_matrix(intf.mortar_to_primary_int())
+        Ps = sps.coo_matrix(intf.mortar_to_secondary_int())
+        pf = {int(m): int(f) for f, m, v in zip(Pp.row, Pp.col, Pp.data) if v != 0}
+        sc = {int(m): int(c) for c, m, v in zip(Ps.row, Ps.col, Ps.data) if v != 0}
+        nm = int(intf.num_cells)
+        ok = (Pp.nnz == nm and Ps.nnz == nm and len(pf) == nm and len(sc) == nm and np.all(Pp.data == 1) and np.all(Ps.data == 1)
+              and (sps.coo_matrix(intf.primary_to_mortar_avg()) != Pp.T).nnz == 0 and (sps.coo_matrix(intf.secondary_to_mortar_avg()) != Ps.T).nnz == 0)
+        if not ok:
+            raise RuntimeError("mortar projections are not one-to-one 0/1 maps on a matching grid")
+        intfs.append({"intf": intf, "h": ih, "l": il, "pf": [pf[m] for m in range(nm)], "sc": [sc[m] for m in range(nm)]})
+    res = (mdg, sds, intfs, {"foff": foff, "coff": coff})
+    if len(_MDGS) > 40:
+        _MDGS.clear()
+    _MDGS[key] = res
+    return res
+
+
+def _gen_md(rng, tier):
+    spec = rng.choice(MD_SPECS)
+    mdg, sds, intfs, info = build_mdg(spec)
+    closed = rng.random() < 0.6
+    sub = []
+    for sd in sds:
+        nf, nc = sd.num_faces, sd.num_cells
+        dom = [int(f) for f in np.nonzero(sd.tags["domain_boundary_faces"])[0]] if sd.dim > 0 else []
+        conds = ["neu"] * len(dom) if closed else [rng.choice(["dir", "neu"]) for _ in dom]
+        scale = rng.choice([1, 1, 2])
+        flux = [Fraction(0) if rng.random() < 0.2 else Fraction(rng.randint(-3, 3), scale) for _ in range(nf)]
+        bv = [F0] * nf
+        if not closed:
+            for f in dom:
+                bv[f] = _dy(rng, -4, 4)
+        sub.append({"flux": [frac(x) for x in flux], "faces": dom, "cond": conds, "bv": [frac(x) for x in bv],
+                    "c": [frac(_dy(rng, -8, 8)) for _ in range(nc)], "V": [frac(_dy(rng, 1, 6, (1, 2, 4))) for _ in range(nc)]})
+    lam = []
+    for it in intfs:
+        nm = len(it["pf"])
+        r = rng.random()
+        l_ = [Fraction(0) if rng.random() < 0.2 else Fraction(rng.randint(-3, 3), rng.choice([1, 2])) for _ in range(nm)]
+        if r < 0.15:
+            l_ = [abs(x) for x in l_]
+        elif r < 0.3:
+            l_ = [-abs(x) for x in l_]
+        lam.append([frac(x) for x in l_])
+    return {"family": "md", "scenario": "md-closed" if closed else "md-open", "grid": spec, "sub": sub, "lam": lam,
+            "dt": frac(rng.choice([Fraction(1, 8), Fraction(1, 4), Fraction(1, 2), Fraction(1)])), "nsteps": rng.randint(1, 3),
+            "swap": rng.random() < 0.15}
+
+
+def _md_run(case):
+    """the real code on an md case -> dict with real matrices (scipy), blocks, bcs"""
+    import porepy as pp
+
+    mdg, sds, intfs, info = build_mdg(case["grid"])
+    kw = "transport"
+    out = {"sub": [], "intf": []}
+    for sd, sp in zip(sds, case["sub"]):
+        with warnings.catch_warnings():
+            warnings.simplefilter("ignore")
+            bc = pp.BoundaryCondition(sd, np.array(sp["faces"], dtype=int), list(sp["cond"])) if sp["faces"] else pp.BoundaryCondition(sd)
+        params = {"darcy_flux": np.array([float(Fraction(x)) for x in sp["flux"]]), "bc": bc,
+                  "bc_values": np.array([float(Fraction(x)) for x in sp["bv"]])}
+        data = {pp.PARAMETERS: {kw: params}, pp.DISCRETIZATION_MATRICES: {kw: {}}}
+        up = pp.Upwind(kw)
+        up.discretize(sd, data)
+        m = data[pp.DISCRETIZATION_MATRICES][kw]
+        out["sub"].append({"bc": bc, "mats": (m[up.upwind_matrix_key], m[up.bound_transport_dir_matrix_key], m[up.bound_transport_neu_matrix_key])})
+    for it, lam in zip(intfs, case["lam"]):
+        intf, h, l = it["intf"], sds[it["h"]], sds[it["l"]]
+        d = {pp.PARAMETERS: {kw: {"darcy_flux": np.array([float(Fraction(x)) for x in lam])}}, pp.DISCRETIZATION_MATRICES: {kw: {}}}
+        uc = pp.UpwindCoupling(kw)
+        rec = {}
+        if case.get("swap"):
+            try:
+                uc.discretize(l, h, intf, {}, {}, d)
+                rec["swap"] = "ok"
+            except Exception as e:
+                rec["swap"] = type(e).__name__
+            d[pp.DISCRETIZATION_MATRICES][kw].clear()
+        uc.discretize(h, l, intf, {}, {}, d)
+        rec["disc"] = dict(d[pp.DISCRETIZATION_MATRICES][kw])
+        sizes = (h.num_cells, l.num_cells, intf.num_cells)
+        matrix = np.array([[sps.coo_matrix((a, b)) for b in sizes] for a in sizes], dtype=object)
+        M, rhs = uc.assemble_matrix_rhs(h, l, intf, {}, {}, d, matrix)
+        rec["cc"] = M
+        rec["rhs_zero"] = all(not np.any(np.asarray(r)) for r in rhs)
+        out["intf"].append(rec)
+    return mdg, sds, intfs, info, out
+
+
+def _gtrip(M, roff, coff):
+    return [[r + roff, c + coff, v] for r, c, v in _trip(M)]
+
+
+def _md_steps(case, sds, intfs, info, real):
+    """explicit md steps from the REAL matrices, exact rationals, global vector"""
+    coff = info["coff"]
+    x = [Fraction(v) for sp in case["sub"] for v in sp["c"]]
+    V = [Fraction(v) for sp in case["sub"] for v in sp["V"]]
+    dt = Fraction(case["dt"])
+    pre = []
+    for sd, sp, r in zip(sds, case["sub"], real["sub"]):
+        U, D, Nm = (_rows(m) for m in r["mats"])
+        F = [Fraction(v) for v in sp["flux"]]
+        bv = [Fraction(v) for v in sp["bv"]]
+        bterm = [a + b for a, b in zip(_matvec(D, [p * q for p, q in zip(F, bv)]), _matvec(Nm, bv))] if sd.num_faces else []
+        pre.append((U, F, bterm, _rows(sd.divergence(dim=1))))
+    blocks = [tuple(_rows(rec["cc"][i, j]) for i, j in ((0, 2), (1, 2), (2, 0), (2, 1))) for rec in real["intf"]]
+    out = []
+    for _ in range(case["nsteps"]):
+        dv = [F0] * len(x)
+        for s, (U, F, bterm, div) in enumerate(pre):
+            xs = x[coff[s]:coff[s + 1]]
+            uc = _matvec(U, xs)
+            g = [F[j] * uc[j] + bterm[j] for j in range(len(F))]
+            for i, v in enumerate(_matvec(div, g)):
+                dv[coff[s] + i] += v
+        for it, (b02, b12, b20, b21) in zip(intfs, blocks):
+            xh, xl = x[coff[it["h"]]:coff[it["h"] + 1]], x[coff[it["l"]]:coff[it["l"] + 1]]
+            eta = [a + b for a, b in zip(_matvec(b20, xh), _matvec(b21, xl))]  # row 2: cc20 xh + cc21 xl - eta = 0
+            for i, v in enumerate(_matvec(b02, eta)):
+                dv[coff[it["h"]] + i] += v
+            for i, v in enumerate(_matvec(b12, eta)):
+                dv[coff[it["l"]] + i] += v
+        x = [x[i] - dt / V[i] * dv[i] for i in range(len(x))]
+        out.append(x)
+    return out
+
+
+def _md_impl(case):
+    try:
+        mdg, sds, intfs, info, real = _md_run(case)
+    except Exception as e:
+        return err_kind(e)
+    foff, coff = info["foff"], info["coff"]
+    out = {"upwind": [], "dir": [], "neu": [], "interfaces": []}
+    for s, r in enumerate(real["sub"]):
+        out["upwind"] += _gtrip(r["mats"][0], foff[s], coff[s])
+        out["dir"] += _gtrip(r["mats"][1], foff[s], foff[s])
+        out["neu"] += _gtrip(r["mats"][2], foff[s], foff[s])
+    for key in ("upwind", "dir", "neu"):
+        out[key].sort()
+    for it, rec in zip(intfs, real["intf"]):
+        h, l = it["h"], it["l"]
+        dm = rec["disc"]
+        cc = rec["cc"]
+        o = {"upwind_primary": [frac(v) for v in sps.csr_matrix(dm["upwind_primary"]).diagonal()],
+             "upwind_secondary": [frac(v) for v in sps.csr_matrix(dm["upwind_secondary"]).diagonal()],
+             "flux": [frac(v) for v in sps.csr_matrix(dm["flux"]).diagonal()],
+             "trace": _gtrip(dm["trace"], foff[h], coff[h]),
+             "cc02": _gtrip(cc[0, 2], coff[h], 0), "cc12": _gtrip(cc[1, 2], coff[l], 0),
+             "cc20": _gtrip(cc[2, 0], 0, coff[h]), "cc21": _gtrip(cc[2, 1], 0, coff[l])}
+        if "swap" in rec:
+            o["swap"] = rec["swap"]
+        out["interfaces"].append(o)
+    out["steps"] = [[frac(v) for v in x] for x in _md_steps(case, sds, intfs, info, real)]
+    return out
+
+
+def _md_ops(case):
+    mdg, sds, intfs, info = build_mdg(case["grid"])
+    foff, coff = info["foff"], info["coff"]
+    inc, flux, is_dir, is_neu, bv, c, V = [], [], [], [], [], [], []
+    import porepy as pp
+    for s, (sd, sp) in enumerate(zip(sds, case["sub"])):
+        inc += [[f + foff[s], cc + coff[s], sg] for f, cc, sg in incidences(sd)] if sd.num_faces else []
+        flux += sp["flux"]
+        with warnings.catch_warnings():
+            warnings.simplefilter("ignore")
+            bc = pp.BoundaryCondition(sd, np.array(sp["faces"], dtype=int), list(sp["cond"])) if sp["faces"] else pp.BoundaryCondition(sd)
+        is_dir += [bool(v) for v in bc.is_dir]
+        is_neu += [bool(v) for v in bc.is_neu]
+        bv += sp["bv"]
+        c += sp["c"]
+        V += sp["V"]
+    gi, pf, sc, lam = [], [], [], []
+    for it, l_ in zip(intfs, case["lam"]):
+        h, l = it["h"], it["l"]
+        one = {"pf": [f + foff[h] for f in it["pf"]], "sc": [cc + coff[l] for cc in it["sc"]], "lam": l_,
+               "dim_h": int(sds[h].dim), "dim_l": int(sds[l].dim), "face_lo": foff[h], "face_hi": foff[h + 1]}
+        gi.append(one)
+        pf += one["pf"]
+        sc += one["sc"]
+        lam += l_
+    ops = [{"op": "md", "nf": foff[-1], "nc": coff[-1], "inc": inc, "flux": flux, "is_dir": is_dir, "is_neu": is_neu, "bv": bv, "c": c, "V": V,
+            "dt": case["dt"], "nsteps": case["nsteps"], "interfaces": gi, "pf": pf, "sc": sc, "lam": lam}]
+    if case.get("swap"):
+        ops.append({"op": "md", "nf": 0, "nc": 0, "inc": [], "flux": [], "is_dir": [], "is_neu": [], "bv": [], "c": [], "V": [], "dt": "0", "nsteps": 0,
+                    "pf": [], "sc": [], "lam": [],
+                    "interfaces": [{"pf": [], "sc": [], "lam": [], "dim_h": g["dim_l"], "dim_l": g["dim_h"], "face_lo": 0, "face_hi": 0} for g in gi]})
+    return ops
+
+
+def _md_decode(outs, case):
+    o = outs[0]
+    if "err" in o:
+        return o
+    o = dict(o)
+    for key in ("upwind", "dir", "neu"):
+        o[key] = _agg(o[key])
+    its = []
+    for n, it in enumerate(o["interfaces"]):
+        it = dict(it)
+        for key in ("trace", "cc02", "cc12", "cc20", "cc21"):
+            it[key] = _agg(it[key])
+        if case.get("swap"):
+            sw = outs[1]["interfaces"][n]
+            it["swap"] = sw["err"] if "err" in sw else "ok"
+        its.append(it)
+    o["interfaces"] = its
+    return o
+
+
+def _md_oracle(case):
+    try:
+        mdg, sds, intfs, info, real = _md_run(case)
+    except Exception as e:
+        return {"what": f"md case raised {type(e).__name__}: {e}", "key": f"md-raises-{type(e).__name__}"}
+    coff = info["coff"]
+    # the single-grid property on every subdomain of the md-grid
+    for s, (sd, sp, r) in enumerate(zip(sds, case["sub"], real["sub"])):
+        if sd.dim == 0:
+            continue
+        view = {"grid": {"kind": f"md-subdomain dim {sd.dim}"}, "flux": sp["flux"], "bc": {"mode": "ctor", "faces": sp["faces"], "cond": sp["cond"]}, "k": 1,
+                "bv": [sp["bv"]], "c": [sp["c"]], "V": sp["V"], "dt": case["dt"], "nsteps": 0}
+        o = _oracle_stage(sd, view, ("ok", r["mats"]))
+        if o is not None:
+            return {"what": f"subdomain {s} of the md-grid: " + o["what"], "key": "md-" + o["key"]}
+    for n, (it, lam, rec) in enumerate(zip(intfs, case["lam"], real["intf"])):
+        h, l = sds[it["h"]], sds[it["l"]]
+        lam = [Fraction(x) for x in lam]
+        nm = len(lam)
+        CFh = np.asarray(h.cell_faces.toarray())
+        dm = rec["disc"]
+        UP, US, FL = (np.asarray(sps.csr_matrix(dm[key]).toarray()) for key in ("upwind_primary", "upwind_secondary", "flux"))
+        cc = rec["cc"]
+        B = {(i, j): np.asarray(sps.csr_matrix(cc[i, j]).toarray()) for i in range(3) for j in range(3)}
+        for (i, j) in ((0, 0), (0, 1), (1, 0), (1, 1)):
+            if np.any(B[i, j] != 0):
+                return {"what": f"interface {n}: block ({i},{j}) of the coupling matrix is not empty", "key": "coupling-diagonal-block"}
+        if not np.array_equal(B[2, 2], -np.eye(nm)) or not rec["rhs_zero"]:
+            return {"what": f"interface {n}: block (2,2) is not -identity or the right-hand side is not zero", "key": "coupling-mortar-block"}
+        for M_, nme in ((UP, "upwind_primary"), (US, "upwind_secondary"), (FL, "flux")):
+            if np.any(M_ - np.diag(np.diag(M_)) != 0):
+                return {"what": f"interface {n}: {nme} is not diagonal", "key": "coupling-offdiag"}
+        for m in range(nm):
+            f = it["pf"][m]
+            cells = [int(c) for c in np.nonzero(CFh[f])[0]]
+            ctx = f"interface {n} (dims {h.dim}-{l.dim}) mortar cell {m}: flux {lam[m]}, primary face {f} with cells {cells}, secondary cell {it['sc'][m]}"
+            if len(cells) != 1:
+                return {"what": f"{ctx}: the matched primary face does not have exactly one cell", "key": "coupling-face-cells"}
+            pc, sc = cells[0], it["sc"][m]
+            want = (1, 0) if lam[m] > 0 else (0, 1)
+            if (UP[m, m], US[m, m]) != want:
+                return {"what": f"{ctx}: upwind_primary/upwind_secondary = {(float(UP[m, m]), float(US[m, m]))}, expected {want}", "key": "coupling-wrong-side"}
+            if FL[m, m] != (lam[m] > 0) - (lam[m] < 0):
+                return {"what": f"{ctx}: flux sign entry {FL[m, m]}", "key": "coupling-flux-sign"}
+            # row 2: eta = lam * (primary cell value if lam > 0 else secondary cell value)
+            r20 = {int(c): Fraction(float(B[2, 0][m, c])) for c in np.nonzero(B[2, 0][m])[0]}
+            r21 = {int(c): Fraction(float(B[2, 1][m, c])) for c in np.nonzero(B[2, 1][m])[0]}
+            w20 = {pc: lam[m]} if lam[m] > 0 else {}
+            w21 = {sc: lam[m]} if lam[m] < 0 else {}
+            if r20 != w20 or r21 != w21:
+                return {"what": f"{ctx}: mortar row takes {r20} from the primary cells and {r21} from the secondary cells, expected {w20} / {w21}", "key": "coupling-row"}
+            # what leaves the primary cell enters the secondary cell
+            c02 = {int(c): Fraction(float(B[0, 2][c, m])) for c in np.nonzero(B[0, 2][:, m])[0]}
+            c12 = {int(c): Fraction(float(B[1, 2][c, m])) for c in np.nonzero(B[1, 2][:, m])[0]}
+            if c02 != {pc: Fraction(1)} or c12 != {sc: Fraction(-1)}:
+                return {"what": f"{ctx}: the mortar flux leaves primary cells {c02} and enters secondary cells {c12} (expected +1 at cell {pc}, -1 at cell {sc})", "key": "coupling-not-conservative"}
+    xs = _md_steps(case, sds, intfs, info, real)
+    if case["scenario"] == "md-closed":
+        _CLS["md_conservation_checked"] = _CLS.get("md_conservation_checked", 0) + 1
+        x0 = [Fraction(v) for sp in case["sub"] for v in sp["c"]]
+        V = [Fraction(v) for sp in case["sub"] for v in sp["V"]]
+        tot0 = sum(a * b for a, b in zip(V, x0))
+        for n_, x in enumerate(xs):
+            tot = sum(a * b for a, b in zip(V, x))
+            if tot != tot0:
+                return {"what": f"md-grid {case['grid']} with no-flow outer boundary: total amount over all subdomains changed from {tot0} to {tot} in step {n_ + 1}", "key": "md-not-conservative"}
+    return None
